@@ -143,7 +143,9 @@ class _Processor:
             exception=exception,
             started_when=started_when,
             finished_when=time.time_ns(),
-            reporting_done=False,
+            # an eager response which was cut short (e.g. by the time limit) has disposed of the
+            # message all the same: there is nothing left to report
+            reporting_done=key.id_ in connection._disposing,
         )
 
     async def report_to_broker(
